@@ -67,10 +67,15 @@ def sibling(ctx) -> None:
             continue
         minfo = prog.func(f'{matcher.ref}.{k}')
         supers = [c for c in core.calls_in(mfn) if isinstance(c.func, ast.Attribute) and c.func.attr == k and core.src(c.func.value) == 'super()']
-        skips = bool(supers) and any(any('not in self._sources' in core.src(t) and pol for t, pol in cfg.guards(c, mfn, siblings=False)) for c in supers)
+        skips = bool(supers) and any(any(t in ('self and source not in self._sources', 'source not in self._sources') and pol for t, pol in cfg.cguards(c, mfn)) for c in supers)
+        if supers and not skips:
+            # any other guard in front of the descent must be recognised, otherwise coverage is undecided
+            odd = [g for c in supers for g in cfg.cguards(c, mfn)]
+            if odd:
+                ctx.fail('R-SIBLING', minfo, f'the descent into {k[6:]} is guarded by an unrecognised condition {odd}: an unadvertised source must be descended into (until a table vetoes), an advertised one may be skipped', mfn, key=f'{k}:guard')
         vetoes = any(isinstance(s, ast.Assign) and core.src(s.targets[0]) == 'self._matches' and core.is_const(s.value, False) for s in ast.walk(mfn))
         if k == 'visit_table':
-            ok_veto = vetoes and any('not in self._sources' in core.src(t) and pol for s in ast.walk(mfn) if isinstance(s, ast.Assign) and core.src(s.targets[0]) == 'self._matches' for t, pol in cfg.guards(s, mfn, siblings=False))
+            ok_veto = vetoes and all(cfg.cguards(s, mfn) == [('source not in self._sources', True)] for s in ast.walk(mfn) if isinstance(s, ast.Assign) and core.src(s.targets[0]) == 'self._matches')
             ctx.check(ok_veto, 'R-SIBLING', minfo, 'a table outside the advertised sources vetoes the match', mfn, key='visit_table:veto')
             ctx.check(resolves_unconditionally, 'R-SIBLING', pinfo, 'the parser resolves a table through the source mapping unconditionally', pfn, key='visit_table:resolve')
             continue
